@@ -54,7 +54,7 @@ pub fn body(pattern: &'static str, free_at: Option<usize>, alphabet: &'static [u
         assert!(res.is_ok(), "C11: encoding returns");
         let n = if sink.len < crate::c10_width::OUTCAP { sink.len } else { crate::c10_width::OUTCAP };
         if let Some(e) = expect_error {
-            assert!(contains(&sink.buf, n, b"{ERROR: ") == e, "C11: errors surface as a visible {ERROR: ...} marker");
+            assert!(contains(&sink.buf, n, b"{ERROR: ") == e, "C11: errors surface as a visible ERROR marker");
         }
         let p = prefix.as_bytes();
         let mut j = 0;
@@ -74,13 +74,24 @@ const DIGITS: &[u8] = b"0123456789";
 const SYNTAX: &[u8] = b"{}()\\:.<>m9 ";
 
 harnesses! {
+    common {
+        #[cfg_attr(kani, kani::stub(<chrono::Local as chrono::TimeZone>::offset_from_utc_datetime, crate::c16_time::stub_offset_from_utc))]
+        #[cfg_attr(kani, kani::stub(<chrono::Local as chrono::TimeZone>::offset_from_local_datetime, crate::c16_time::stub_offset_from_local))]
+        #[cfg_attr(kani, kani::stub(chrono::Local::now, crate::c16_time::stub_local_now))]
+        #[cfg_attr(kani, kani::stub(chrono::Utc::now, crate::c16_time::stub_utc_now))]
+        #[cfg_attr(kani, kani::stub(log_mdc::get, crate::c09_pattern::stub_mdc_get))]
+        #[cfg_attr(kani, kani::stub(thread_id::get, crate::c09_pattern::stub_thread_id_get))]
+        #[cfg_attr(kani, kani::stub(std::process::id, crate::c09_pattern::stub_process_id))]
+        #[cfg_attr(kani, kani::stub(std::backtrace::Backtrace::capture, crate::util::stub_backtrace_capture))]
+        #[cfg_attr(kani, kani::stub(<anyhow::Error as std::ops::Drop>::drop, crate::util::stub_anyhow_drop))]
+    }
     // widths: Parser::integer on long digit strings (2^64 = 18446744073709551616)
     #[kani::unwind(26)]
-    fn width_20_digits() { body("{m:18446744073709551619}", Some(22), DIGITS, None, "", false, false) }
+    fn width_20_digits() { body("{m:18446744073709551619}", None, DIGITS, None, "", false, false) }
     #[kani::unwind(26)]
-    fn width_20_digits_witness() { body("{m:18446744073709551619}", Some(22), DIGITS, None, "", false, true) }
+    fn width_20_digits_witness() { body("{m:18446744073709551619}", None, DIGITS, None, "", false, true) }
     #[kani::unwind(28)]
-    fn maxwidth_22_digits() { body("{m:.9999999999999999999999}", Some(24), DIGITS, None, "", false, false) }
+    fn maxwidth_22_digits() { body("{m:.9999999999999999999999}", None, DIGITS, None, "", false, false) }
     #[kani::unwind(12)]
     fn width_small_encode() { body("ab{m:>5.3}", Some(6), DIGITS, Some(false), "ab", true, false) }
     // syntax errors after a rendered prefix
